@@ -423,208 +423,264 @@ def assignFromTemp (c : Cfg) (i : Nat) (x : Arr) (es : List Ext) (rowLen : Nat :
   let p ← build c ta n true rowLen
   noexcept (moveAssignFrom c i x ta p (reported es) n)
 
-def Op.run (c : Cfg) (op : Op) : M Unit := do
+/-- `array(allocator)` array.hpp:207 -/
+def opCtorDefault (c : Cfg) (i : Nat) (a : AllocId) : M Unit := setSlot i (some (emptyArr c a))
+
+/-- copy constructor array.hpp:499-514 (`alloc = select_on_container_copy_construction(other.alloc())`) and the
+    allocator-extended copy constructor array.hpp:294-307 -/
+def opCtorCopy (c : Cfg) (i j : Nat) (a : Option AllocId) : M Unit := do
   let s ← get
-  match op with
-  | .ctorDefault i a => setSlot i (some (emptyArr c a))     -- array.hpp:207
-  | .ctorExt i a es => ctorWith c i a es (!c.trivCtor)        -- array.hpp:362-366, 171-175
-  | .ctorFill i a es => ctorWith c i a es true                -- array.hpp:312-315
-  | .ctorCopy i j =>                                          -- array.hpp:492-507
-    match getArr s j with
-    | none => ub
-    | some y => do
-      readCells c y.base y.n
-      let p ← build c (c.select y.alloc) y.n true
-      setSlot i (some ⟨c.select y.alloc, p, reported y.ext, y.n⟩)
-  | .ctorCopyA i j a =>                                       -- array.hpp:287-300
-    match getArr s j with
-    | none => ub
-    | some y => do
-      readCells c y.base y.n
-      let p ← build c a y.n true
-      setSlot i (some ⟨a, p, reported y.ext, y.n⟩)
-  | .ctorView i j a sl =>                                     -- array.hpp:374-388
-    match getArr s j with
-    | none => ub
-    | some y => do
-      let es := viewExts y sl
-      readCells c y.base (nElems es)
-      ctorWith c i a es true
-  | .ctorRange i j a =>                                       -- array.hpp:250-268
-    match getArr s j with
-    | none => ub
-    | some y => do
-      readCells c y.base y.n
-      ctorWith c i a (rangeExts c y) true (rangeRowLen y)
-  | .ctorMove i j =>                                          -- array.hpp:1276, 242-245
-    match getArr s j with
-    | none => ub
-    | some y => do
-      setSlot i (some ⟨y.alloc, y.base, y.ext, y.n⟩)
-      setSlot j (some { y with base := none, ext := emptyExts c.dim, n := 0 })
-  | .ctorMoveA i j a =>                                       -- array.hpp:1273, 242-245
-    match getArr s j with
-    | none => ub
-    | some y => do
-      setSlot i (some ⟨a, y.base, y.ext, y.n⟩)
-      setSlot j (some { y with base := none, ext := emptyExts c.dim, n := 0 })
-  | .dtor i =>
-    match getArr s i with
-    | none => ub
-    | some x => dtorArr c i x
-  | .clear i =>
-    match getArr s i with
-    | none => ub
-    | some x => noexcept (do let _ ← clearArr c i x; pure ())
-  | .assignCopy i j =>                                        -- array.hpp:1311-1330, 675-683
-    match getArr s i, getArr s j with
-    | some x, some y =>
-      if extsEq x.ext y.ext then
-        if i = j then pure () else do
-          let x1 : Arr := if c.pocca then { x with alloc := y.alloc } else x
-          setSlot i (some x1)
-          readCells c y.base y.n
-          assignAll c x1.base (List.range y.n)
-      else do
-        let x1 ← clearArr c i x
-        let x2 : Arr := if c.pocca then { x1 with alloc := y.alloc } else x1
-        if c.fx7 then do
-          setSlot i (some x2)
-          readCells c y.base y.n
-          let p ← allocate x2.alloc y.n
-          tryCatch (constructAll c p y.n) (do deallocate c x2.alloc p y.n; rethrow)
-          setSlot i (some { x2 with base := p, ext := y.ext, n := y.n })
-        else do
-          let x3 : Arr := { x2 with ext := y.ext, n := y.n }
-          setSlot i (some x3)
-          let p ← allocate x3.alloc y.n
-          setSlot i (some { x3 with base := p })
-          readCells c y.base y.n
-          constructAll c p y.n
-    | _, _ => ub
-  | .assignMove i j =>                                        -- array.hpp:1296-1309
-    match getArr s i, getArr s j with
-    | some x, some y =>
-      if i = j then pure () else noexcept do
-        moveAssignFrom c i x y.alloc y.base y.ext y.n
-        setSlot j (some { y with ext := emptyExts c.dim, n := 0 })
-    | _, _ => ub
-  | .swap i j =>                                              -- array.hpp:1282-1293
-    match getArr s i, getArr s j with
-    | some x, some y =>
+  match getArr s j with
+  | none => ub
+  | some y => do
+    let al := match a with | some a => a | none => c.select y.alloc
+    readCells c y.base y.n
+    let p ← build c al y.n true
+    setSlot i (some ⟨al, p, reported y.ext, y.n⟩)
+
+/-- construction from a view array.hpp:381-395 -/
+def opCtorView (c : Cfg) (i j : Nat) (a : AllocId) (sl : Option (Int × Int)) : M Unit := do
+  let s ← get
+  match getArr s j with
+  | none => ub
+  | some y => do
+    let es := viewExts y sl
+    readCells c y.base (nElems es)
+    ctorWith c i a es true
+
+/-- iterator-pair constructor array.hpp:257-275 -/
+def opCtorRange (c : Cfg) (i j : Nat) (a : AllocId) : M Unit := do
+  let s ← get
+  match getArr s j with
+  | none => ub
+  | some y => do
+    readCells c y.base y.n
+    ctorWith c i a (rangeExts c y) true (rangeRowLen y)
+
+/-- move constructor array.hpp:1283 and allocator-extended move constructor array.hpp:1280, both through
+    `static_array(decay_type&&, allocator_type const&)` array.hpp:249-252: the block is adopted, the source emptied -/
+def opCtorMove (c : Cfg) (i j : Nat) (a : Option AllocId) : M Unit := do
+  let s ← get
+  match getArr s j with
+  | none => ub
+  | some y => do
+    setSlot i (some ⟨match a with | some a => a | none => y.alloc, y.base, y.ext, y.n⟩)
+    setSlot j (some { y with base := none, ext := emptyExts c.dim, n := 0 })
+
+def opDtor (c : Cfg) (i : Nat) : M Unit := do
+  let s ← get
+  match getArr s i with
+  | none => ub
+  | some x => dtorArr c i x
+
+def opClear (c : Cfg) (i : Nat) : M Unit := do
+  let s ← get
+  match getArr s i with
+  | none => ub
+  | some x => noexcept (do let _ ← clearArr c i x; pure ())
+
+/-- copy assignment array.hpp:1318-1337 (same extents: `static_array::operator=` array.hpp:682-690) -/
+def opAssignCopy (c : Cfg) (i j : Nat) : M Unit := do
+  let s ← get
+  match getArr s i, getArr s j with
+  | some x, some y =>
+    if extsEq x.ext y.ext then
       if i = j then pure () else do
-        setSlot i (some ⟨if c.pocs then y.alloc else x.alloc, y.base, y.ext, y.n⟩)
-        setSlot j (some ⟨if c.pocs then x.alloc else y.alloc, x.base, x.ext, x.n⟩)
-    | _, _ => ub
-  | .reextent i es => reext c i es false
-  | .reextentFill i es => reext c i es true
-  | .reextentRv i es =>                                       -- array.hpp:1442-1459
-    match getArr s i with
-    | none => ub
-    | some x =>
-      if extsEq x.ext es then pure () else do
-        destroyAll c x.base x.n
-        deallocate c x.alloc x.base x.n
-        let n := nElems es
-        if c.fx7 then do
-          setSlot i (some { x with ext := emptyExts c.dim, n := 0 })
-          let p ← allocate x.alloc n
-          if !c.trivCtor then tryCatch (constructAll c p n) (do deallocate c x.alloc p n; rethrow)
-          setSlot i (some { x with base := p, ext := reported es, n := n })
-        else do
-          let x1 : Arr := { x with ext := reported es, n := n }
-          setSlot i (some x1)
-          let p ← allocate x.alloc n
-          setSlot i (some { x1 with base := p })
-          if !c.trivCtor then constructAll c p n
-  | .reshape i es =>                                          -- array.hpp:1238-1244
-    match getArr s i with
-    | none => ub
-    | some x => if nElems es = x.n then setSlot i (some { x with ext := reported es }) else ub
-  | .assignFill i es =>                                       -- array.hpp:1405-1415
-    match getArr s i with
-    | none => ub
-    | some x =>
-      if extsEq x.ext es then assignAll c x.base (List.range x.n)     -- `adl_fill_n(base_, num_elements(), elem)`
-      else do
-        let x1 ← clearArr c i x
-        let n := nElems es
-        if c.fx7 then do
-          let p ← allocate x1.alloc n
-          tryCatch (constructAll c p n) (do deallocate c x1.alloc p n; rethrow)
-          setSlot i (some { x1 with base := p, ext := reported es, n := n })
-        else do
-          let x2 : Arr := { x1 with ext := reported es, n := n }
-          setSlot i (some x2)
-          let p ← allocate x2.alloc n
-          setSlot i (some { x2 with base := p })
-          constructAll c p n
-  | .assignView i j sl lvalue =>                              -- lvalue view: array.hpp:1335-1343; rvalue view: array.hpp:1361-1379
-    match getArr s i, getArr s j with
-    | some x, some y =>
-      let es := viewExts y sl
-      if extsEq x.ext es then do
-        readCells c y.base (nElems es)
-        assignAll c x.base (List.range x.n)
-      else if !lvalue && x.n = nElems es then do            -- `reshape(other.extensions())`, then element-wise
-        setSlot i (some { x with ext := reported es })
-        readCells c y.base (nElems es)
-        assignAll c x.base (List.range x.n)
-      else do
-        readCells c y.base (nElems es)
-        assignFromTemp c i x es
-    | _, _ => ub
-  | .assignRange i j =>                                       -- array.hpp:1412-1422
-    match getArr s i, getArr s j with
-    | some x, some y =>
-      if rangeInPlace x y then do
+        let x1 : Arr := if c.pocca then { x with alloc := y.alloc } else x
+        setSlot i (some x1)
         readCells c y.base y.n
-        assignAll c x.base (List.range x.n)
-      else do
+        assignAll c x1.base (List.range y.n)
+    else do
+      let x1 ← clearArr c i x
+      let x2 : Arr := if c.pocca then { x1 with alloc := y.alloc } else x1
+      if c.fx7 then do
+        setSlot i (some x2)
         readCells c y.base y.n
-        assignFromTemp c i x (rangeExts c y) (rangeRowLen y)
-    | _, _ => ub
-  | .viewAssign i j =>                                        -- array_ref.hpp subarray::operator=
-    match getArr s i, getArr s j with
-    | some x, some y => do
+        let p ← allocate x2.alloc y.n
+        tryCatch (constructAll c p y.n) (do deallocate c x2.alloc p y.n; rethrow)
+        setSlot i (some { x2 with base := p, ext := y.ext, n := y.n })
+      else do
+        let x3 : Arr := { x2 with ext := y.ext, n := y.n }
+        setSlot i (some x3)
+        let p ← allocate x3.alloc y.n
+        setSlot i (some { x3 with base := p })
+        readCells c y.base y.n
+        constructAll c p y.n
+  | _, _ => ub
+
+/-- move assignment array.hpp:1303-1316 -/
+def opAssignMove (c : Cfg) (i j : Nat) : M Unit := do
+  let s ← get
+  match getArr s i, getArr s j with
+  | some x, some y =>
+    if i = j then pure () else noexcept do
+      moveAssignFrom c i x y.alloc y.base y.ext y.n
+      setSlot j (some { y with ext := emptyExts c.dim, n := 0 })
+  | _, _ => ub
+
+/-- `swap` array.hpp:1289-1300 -/
+def opSwap (c : Cfg) (i j : Nat) : M Unit := do
+  let s ← get
+  match getArr s i, getArr s j with
+  | some x, some y =>
+    if i = j then pure () else do
+      setSlot i (some ⟨if c.pocs then y.alloc else x.alloc, y.base, y.ext, y.n⟩)
+      setSlot j (some ⟨if c.pocs then x.alloc else y.alloc, x.base, x.ext, x.n⟩)
+  | _, _ => ub
+
+/-- `reextent(extensions) &` array.hpp:1468-1500 and `reextent(extensions, elem) &` array.hpp:1505-1540 -/
+def opReextent (c : Cfg) (i : Nat) (es : List Ext) (fill : Bool) : M Unit := do
+  let s ← get
+  match getArr s i with
+  | none => ub
+  | some x =>
+    if extsEq x.ext es then pure () else do
+      let n := nElems es
+      let p ← allocate x.alloc n
+      let doCtor := fill || !c.trivCtor
+      let offs := (posIn (reported es) x.ext).filter (· < n)
+      if c.fx8 then do
+        if doCtor then tryCatch (constructAll c p n) (do deallocate c x.alloc p n; rethrow)
+        tryCatch (do readCells c x.base (if offs.isEmpty then 0 else x.n); assignAll c p offs)
+                 (do (if doCtor then destroyAll c p n else pure ()); deallocate c x.alloc p n; rethrow)
+      else do
+        if doCtor then constructAll c p n
+        readCells c x.base (if offs.isEmpty then 0 else x.n)
+        assignAll c p offs
+      destroyAll c x.base x.n
+      deallocate c x.alloc x.base x.n
+      setSlot i (some { x with base := p, ext := reported es, n := n })
+
+/-- `reextent(extensions) &&` array.hpp:1449-1466 -/
+def opReextentRv (c : Cfg) (i : Nat) (es : List Ext) : M Unit := do
+  let s ← get
+  match getArr s i with
+  | none => ub
+  | some x =>
+    if extsEq x.ext es then pure () else
+    if c.fx7 then do
+      let x1 ← clearArr c i x
+      let n := nElems es
+      let p ← allocate x1.alloc n
+      if !c.trivCtor then tryCatch (constructAll c p n) (do deallocate c x1.alloc p n; rethrow)
+      setSlot i (some { x1 with base := p, ext := reported es, n := n })
+    else do
+      destroyAll c x.base x.n
+      deallocate c x.alloc x.base x.n
+      let n := nElems es
+      let x1 : Arr := { x with ext := reported es, n := n }
+      setSlot i (some x1)
+      let p ← allocate x.alloc n
+      setSlot i (some { x1 with base := p })
+      if !c.trivCtor then constructAll c p n
+
+/-- `reshape` array.hpp:1245-1251 -/
+def opReshape (i : Nat) (es : List Ext) : M Unit := do
+  let s ← get
+  match getArr s i with
+  | none => ub
+  | some x => if nElems es = x.n then setSlot i (some { x with ext := reported es }) else ub
+
+/-- `assign(extensions, elem)` array.hpp:1410-1430 -/
+def opAssignFill (c : Cfg) (i : Nat) (es : List Ext) : M Unit := do
+  let s ← get
+  match getArr s i with
+  | none => ub
+  | some x =>
+    if extsEq x.ext es then assignAll c x.base (List.range x.n)     -- `adl_fill_n(base_, num_elements(), elem)`
+    else do
+      let x1 ← clearArr c i x
+      let n := nElems es
+      if c.fx7 then do
+        let p ← allocate x1.alloc n
+        tryCatch (constructAll c p n) (do deallocate c x1.alloc p n; rethrow)
+        setSlot i (some { x1 with base := p, ext := reported es, n := n })
+      else do
+        let x2 : Arr := { x1 with ext := reported es, n := n }
+        setSlot i (some x2)
+        let p ← allocate x2.alloc n
+        setSlot i (some { x2 with base := p })
+        constructAll c p n
+
+/-- assignment from a view: lvalue view array.hpp:1342-1350; rvalue view array.hpp:1368-1388 -/
+def opAssignView (c : Cfg) (i j : Nat) (sl : Option (Int × Int)) (lvalue : Bool) : M Unit := do
+  let s ← get
+  match getArr s i, getArr s j with
+  | some x, some y =>
+    let es := viewExts y sl
+    if extsEq x.ext es then do
+      readCells c y.base (nElems es)
+      assignAll c x.base (List.range x.n)
+    else if !lvalue && x.n = nElems es then do            -- `reshape(other.extensions())`, then element-wise
+      setSlot i (some { x with ext := reported es })
+      readCells c y.base (nElems es)
+      assignAll c x.base (List.range x.n)
+    else do
+      readCells c y.base (nElems es)
+      assignFromTemp c i x es
+  | _, _ => ub
+
+/-- `assign(first, last)` array.hpp:1432-1443 -/
+def opAssignRange (c : Cfg) (i j : Nat) : M Unit := do
+  let s ← get
+  match getArr s i, getArr s j with
+  | some x, some y =>
+    if rangeInPlace x y then do
       readCells c y.base y.n
       assignAll c x.base (List.range x.n)
-    | _, _ => ub
-  | .saMove a es => do                                        -- array.hpp:312-315 then 227-240 (noexcept), then both destructors
-    let n := nElems es
-    let p ← build c a n true
-    let q ← noexcept (do
-      let q ← allocate a n
-      readCells c p n
-      constructAll c q n
-      pure q)
-    destroyAll c q n
-    deallocate c a q n
-    destroyAll c p n
-    deallocate c a p n
-where
-  /-- `reextent(extensions) &` array.hpp:1461-1484 and `reextent(extensions, elem) &` array.hpp:1489-1517 -/
-  reext (c : Cfg) (i : Nat) (es : List Ext) (fill : Bool) : M Unit := do
-    let s ← get
-    match getArr s i with
-    | none => ub
-    | some x =>
-      if extsEq x.ext es then pure () else do
-        let n := nElems es
-        let p ← allocate x.alloc n
-        let doCtor := fill || !c.trivCtor
-        let offs := (posIn (reported es) x.ext).filter (· < n)
-        if c.fx8 then do
-          if doCtor then tryCatch (constructAll c p n) (do deallocate c x.alloc p n; rethrow)
-          tryCatch (do readCells c x.base (if offs.isEmpty then 0 else x.n); assignAll c p offs)
-                   (do (if doCtor then destroyAll c p n else pure ()); deallocate c x.alloc p n; rethrow)
-        else do
-          if doCtor then constructAll c p n
-          readCells c x.base (if offs.isEmpty then 0 else x.n)
-          assignAll c p offs
-        destroyAll c x.base x.n
-        deallocate c x.alloc x.base x.n
-        setSlot i (some { x with base := p, ext := reported es, n := n })
+    else do
+      readCells c y.base y.n
+      assignFromTemp c i x (rangeExts c y) (rangeRowLen y)
+  | _, _ => ub
+
+/-- assignment through views `A() = B()` (array_ref.hpp, `subarray::operator=`) -/
+def opViewAssign (c : Cfg) (i j : Nat) : M Unit := do
+  let s ← get
+  match getArr s i, getArr s j with
+  | some x, some y => do
+    readCells c y.base y.n
+    assignAll c x.base (List.range x.n)
+  | _, _ => ub
+
+/-- `static_array s(extensions, elem, alloc); static_array t(std::move(s));` then both destructors: array.hpp:319-324, then
+    the noexcept `static_array(static_array&&)` array.hpp:234-247 (allocates and move-constructs element-wise) -/
+def opSaMove (c : Cfg) (a : AllocId) (es : List Ext) : M Unit := do
+  let n := nElems es
+  let p ← build c a n true
+  let q ← noexcept (do
+    let q ← allocate a n
+    readCells c p n
+    constructAll c q n
+    pure q)
+  destroyAll c q n
+  deallocate c a q n
+  destroyAll c p n
+  deallocate c a p n
+
+def Op.run (c : Cfg) : Op → M Unit
+  | .ctorDefault i a => opCtorDefault c i a
+  | .ctorExt i a es => ctorWith c i a es (!c.trivCtor)        -- array.hpp:369-375, 171-175
+  | .ctorFill i a es => ctorWith c i a es true                -- array.hpp:319-324
+  | .ctorCopy i j => opCtorCopy c i j none
+  | .ctorCopyA i j a => opCtorCopy c i j (some a)
+  | .ctorView i j a sl => opCtorView c i j a sl
+  | .ctorRange i j a => opCtorRange c i j a
+  | .ctorMove i j => opCtorMove c i j none
+  | .ctorMoveA i j a => opCtorMove c i j (some a)
+  | .dtor i => opDtor c i
+  | .clear i => opClear c i
+  | .assignCopy i j => opAssignCopy c i j
+  | .assignMove i j => opAssignMove c i j
+  | .swap i j => opSwap c i j
+  | .reextent i es => opReextent c i es false
+  | .reextentFill i es => opReextent c i es true
+  | .reextentRv i es => opReextentRv c i es
+  | .reshape i es => opReshape i es
+  | .assignFill i es => opAssignFill c i es
+  | .assignView i j sl lvalue => opAssignView c i j sl lvalue
+  | .assignRange i j => opAssignRange c i j
+  | .viewAssign i j => opViewAssign c i j
+  | .saMove a es => opSaMove c a es
 
 /-- operations that are excluded from a history by the caller's obligations (the harness skips them): wrong slot state,
     slice outside the leading extension, empty range for the iterator constructor, reshape to another element count -/
